@@ -121,7 +121,10 @@ def valid_corpus(ctx):
     c["sighashsig_from_bytes"] = [der + b"\x41", der + b"\x01"]
     bie, _ = C11.ref_bie1(x, ec.mul_g(7), b"hello world, this is a message", False)
     bie2, _ = C11.ref_bie1(x, ec.mul_g(7), b"short", True)
-    c["ecies_from_bytes_pub"] = [bie]
+    # the same envelope with the sender key in the 65-byte uncompressed form (not what the format uses, but a shape a parser may grow to
+    # accept), padded to several total lengths
+    unc = [b"BIE1" + ec.ser(ec.mul_g(x), False) + gen.rbytes(r, n_) for n_ in (0, 16, 31, 32, 48, 64, 100)]
+    c["ecies_from_bytes_pub"] = [bie] + unc
     c["ecies_from_bytes_nopub"] = [bie2]
     c["hash_serde_json"] = ['"' + gen.rbytes(r, 32).hex() + '"']
     c["kdf_serde_json"] = ['{"hash":"' + gen.rbytes(r, 32).hex() + '","salt":"' + gen.rbytes(r, 8).hex() + '"}']
@@ -166,6 +169,39 @@ def cases(ctx):
     decs = load_decoders(ctx)
     corpus = valid_corpus(ctx)
     k = 0
+    # 0. documents in the library's OWN schema for inputs whose script nests conditionals deeply (the document nests two levels per
+    # conditional): below, at and far above the decoders' recursion limits; far above them only an error is acceptable, not a dead
+    # process. The depth-2 document comes from the library; deeper ones repeat its per-level bytes (building them through the library
+    # costs minutes at depth 2000).
+    PRE_C, POST_C, INNER_C = bytes.fromhex("a364636f6465654f505f4946647061737381"), bytes.fromhex("646661696cf6"), bytes.fromhex("644f505f31")
+    PRE_J, POST_J, INNER_J = '{"code":"OP_IF","pass":[', '],"fail":null}', '"OP_1"'
+    tmpl = None
+    for dpt in (60, 126, 127, 128, 500, 1000, 1900, 3000, 4095, 4096, 8000, 20000):
+        k += 1
+        if k % N != S:
+            continue
+        if tmpl is None:
+            rawd = wire.tx_encode({"version": 1, "ins": [{"txid_wire": b"\x11" * 32, "vout": 0, "script": b"\x63\x63\x51\x68\x68", "seq": 1}], "outs": [], "locktime": 0})
+            d = ctx.call({"op": "docs", "tx": rawd.hex()})
+            if "ok" not in d:
+                break
+            tmpl = {}
+            for name, doc, mid in (("tx_c", bytes.fromhex(d["ok"]["cbor"]), PRE_C * 2 + INNER_C + POST_C * 2), ("in_c", bytes.fromhex(d["ok"]["ins"][0]["cbor"]), PRE_C * 2 + INNER_C + POST_C * 2),
+                                   ("tx_j", "".join(d["ok"]["json"].split()), PRE_J * 2 + INNER_J + POST_J * 2), ("in_j", "".join(d["ok"]["ins"][0]["json"].split()), PRE_J * 2 + INNER_J + POST_J * 2)):
+                if doc.count(mid) != 1:
+                    tmpl = None
+                    break
+                tmpl[name] = doc.split(mid)
+            if tmpl is None:
+                ctx.note("nested-document template could not be derived from the library's depth-2 document")
+                break
+        mk_c = lambda ht: ht[0] + PRE_C * dpt + INNER_C + POST_C * dpt + ht[1]
+        mk_j = lambda ht: ht[0] + PRE_J * dpt + INNER_J + POST_J * dpt + ht[1]
+        for which, item in (("tx_from_json_string", mk_j(tmpl["tx_j"])), ("tx_from_compact_bytes", mk_c(tmpl["tx_c"])), ("tx_from_compact_hex", mk_c(tmpl["tx_c"]).hex()), ("txin_serde_json", mk_j(tmpl["in_j"])),
+                            ("txin_from_compact_bytes", mk_c(tmpl["in_c"])), ("txin_from_compact_hex", mk_c(tmpl["in_c"]).hex())):
+            c_ = mk(which, "bytes" if isinstance(item, bytes) else "text", item, "nested_document")
+            c_["depth"] = dpt
+            yield c_
     for which, kind in decs:
         valid = corpus.get(which, [])
         # 1. empty and short inputs of every length 0..80
